@@ -452,7 +452,9 @@ def find_witness(cx, extra=None, timeout_ms=5000, tries=6):
             any_sat = True
             env, exact = model_env(cx, s.model())
             fenv = snap_env(env)
-            if pc_holds(cx, fenv, margin=1e-7):
+            if pc_holds(cx, fenv, margin=1e-7) or (not extra_cs and pc_holds(cx, fenv, margin=0)):
+                # (last attempt: a float-representable point that satisfies the path condition exactly is accepted even when it sits in
+                # a very thin region, e.g. 0 < |x| <= 1e-8)
                 s.pop()
                 return fenv, 'sat'
         elif r == 'unsat' and not extra_cs:
@@ -661,6 +663,10 @@ def confirm_cex(cx, fn, params, opts, name, cex, g, stats):
         if conc['status'] == 'assumption-failed':
             continue
         failing = [cg for cg in conc['goals'] if cg['name'] == name and not cg['ok']]
+        if not failing and any(t in name for t in (':nonzero@', ':nonneg@', ':ge1@', ':in11@')):
+            # a definedness obligation (division by zero, sqrt / arccosh / arccos out of range) shows in the float run as NaN / inf,
+            # i.e. as some other goal that no longer holds
+            failing = [cg for cg in conc['goals'] if not cg['ok']]
         if conc['status'] == 'exception' and not failing:
             # the real code raises where the property says it should return a value
             failing = [dict(name=name, why=conc['exc'])]
